@@ -186,4 +186,67 @@ SThmLatticesAgree(u, v) ==
     (SIsAxis(u) /\ SIsAxis(v)) =>
         LET s == SepGC(SAxisToGC(u), SAxisToGC(v))  c == CosSep(u, v)
         IN \/ (s = EZero /\ c = RInt(1)) \/ (s = EDeg(90) /\ c = RInt(0)) \/ (s = EDeg(180) /\ c = RInt(-1))
+
+\* ==================================================================================
+\* 3. laws that make LARGE array calls and MANY-TURN longitudes decidable from the small lattice
+\*    (added for C08; purely additional operators, prefix G)
+\* ==================================================================================
+\* 3a. SCALE.  The separation function of an array call is ELEMENTWISE: element k of the result
+\* depends on element k of the (broadcast) arguments only.  So it commutes with concatenation, with
+\* cyclic repetition of a small "tile" of pairs to any length, and with broadcasting one point
+\* against an array.  A call with 2^21 pairs is decided by the lattice separations of its tile.
+GSepSeq(ps, qs)    == [k \in 1..Len(ps) |-> SepGC(ps[k], qs[k])]
+\* n elements of the endless repetition of s, starting rot places into s
+GCycle(s, n, rot)  == [k \in 1..n |-> s[((k - 1 + rot) % Len(s)) + 1]]
+GConst(p, n)       == [k \in 1..n |-> p]
+GThmConcat(ps1, qs1, ps2, qs2) ==
+    GSepSeq(ps1 \o ps2, qs1 \o qs2) = GSepSeq(ps1, qs1) \o GSepSeq(ps2, qs2)
+GThmCycle(ps, qs, n, rot) ==
+    GSepSeq(GCycle(ps, n, rot), GCycle(qs, n, rot)) = GCycle(GSepSeq(ps, qs), n, rot)
+GThmBroadcast(p, qs, n, rot) ==
+    GSepSeq(GConst(p, n), GCycle(qs, n, rot)) = GCycle([k \in 1..Len(qs) |-> SepGC(p, qs[k])], n, rot)
+\* how many of the n elements (0-based index k) of such a repetition show tile position t
+\* (0-based): the k with (k + rot) % T = t
+GCycleCount(n, T, rot, t) == LET first == (t + T - (rot % T)) % T
+                             IN IF first >= n THEN 0 ELSE ((n - 1 - first) \div T) + 1
+GThmCycleCount(n, T, rot, t) ==
+    GCycleCount(n, T, rot, t) = Cardinality({k \in 0..(n - 1) : (k + rot) % T = t})
+\* the code path a pair selects (coincident / ordinary / the large-angle branch); 175 degrees is a
+\* lattice value safely inside the branch (cos <= -0.995 <=> sep >= 174.27 degrees)
+GSepClass(p, q) == LET s == SepGC(p, q)
+                   IN IF s = EZero THEN "zero" ELSE IF ELe(EDeg(175), s) THEN "near180" ELSE "small"
+
+\* 3b. MANY TURNS.  A longitude lon + 360*k (k up to 10^6) or its radian value is in general not a
+\* double: the double handed to the code is DISPLACED from the lattice longitude by a known tiny
+\* amount (up to 3e-8 degree).  The separation of the displaced pair is an exactly known function of
+\* the displacements s1, s2 (any real numbers; the theorems are checked with eps-angles standing for
+\* them) in these classes of pairs, and only these are judged at many turns:
+\*   "exact"   : no displacement at all (degree input, integer-degree longitudes)
+\*   "equator" : both points on the equator: the separation is the circular difference of the
+\*               displaced longitudes
+\*   "pole"    : one point is a pole: the longitudes do not matter
+\*   "samelon" : both longitudes are the SAME number (same displacement): common rotation
+GTurnClasses == {"none", "exact", "equator", "pole", "samelon"}
+GTurnClassOK(cl, p, q) ==
+    CASE cl = "none"    -> TRUE
+      [] cl = "exact"   -> p.lon[2] = 0 /\ q.lon[2] = 0
+      [] cl = "equator" -> GOnEquator(p) /\ GOnEquator(q)
+      [] cl = "pole"    -> GIsPole(p) \/ GIsPole(q)
+      [] cl = "samelon" -> p.lon = q.lon
+      [] OTHER          -> FALSE
+GShift2(p, q, s1, s2) == <<GShiftLon(p, s1), GShiftLon(q, s2)>>
+GThmTurnEquator(p, q, s1, s2) ==
+    (GOnEquator(p) /\ GOnEquator(q)) =>
+        LET pq == GShift2(p, q, s1, s2)
+        IN /\ GDefined(pq[1], pq[2])
+           \* depends on the displaced longitude DIFFERENCE only
+           /\ SepGC(pq[1], pq[2]) = ECircSep(EZero, EAdd(ESub(q.lon, p.lon), ESub(s2, s1)))
+GThmTurnPole(p, q, s1, s2) ==
+    (GIsPole(p) \/ GIsPole(q)) =>
+        LET pq == GShift2(p, q, s1, s2)
+        IN GDefined(pq[1], pq[2]) /\ SepGC(pq[1], pq[2]) = SepGC(p, q)
+GThmTurnSameLon(p, q, s) ==
+    (p.lon = q.lon /\ GDefined(p, q)) =>
+        LET pq == GShift2(p, q, s, s)
+        IN GDefined(pq[1], pq[2]) /\ SepGC(pq[1], pq[2]) = SepGC(p, q)
 =============================================================================
